@@ -8,7 +8,7 @@ python3 - <<'PY'
 import sys, os
 sys.path.insert(0, os.path.join(os.getcwd(), "tools"))
 from vlib import core
-for crate in ("ds",):
+for crate in ("ds",):  # harness/engine is generated and built by the checks themselves
     ok, out, _, wall = core.build_harness(crate)
     print(f"harness {crate}: {'ok' if ok else 'FAILED'} in {wall:.0f}s")
     if not ok:
